@@ -15,11 +15,11 @@ import LitexModel.Axi.BurstSpec
 namespace Litex.Axi
 
 /-- `AXIUpConverter` address channel, ratio `2^k`. -/
-def upConv (k : Nat) (r : Req) : Req :=
+def upAx (k : Nat) (r : Req) : Req :=
   { r with len := r.len / 2 ^ k, size := (r.size + k) % 8 }
 
 /-- `AXIDownConverter` address channel, from `2^sf`-byte to `2^st`-byte data bus. -/
-def downConv (sf st : Nat) (r : Req) : Req :=
+def downAx (sf st : Nat) (r : Req) : Req :=
   { r with
     addr  := r.addr / 2 ^ sf * 2 ^ sf
     len   := ((r.len + 1) * 2 ^ (sf - st) - 1) % 256
